@@ -56,7 +56,14 @@ def gen_value(rng):
 
 def gen_ops(rng, n, writes=True):
     ops = []
-    if rng.random() < 0.35:
+    if rng.random() < 0.12:
+        # directed prefix: the same coordinate on the three sheets one after the other (the values differ: the caller's query cell is
+        # re-pointed from sheet to sheet)
+        col, row = rng.choice([(0, 0), (1, 1)])
+        order = [0, 1, 2]
+        rng.shuffle(order)
+        ops += [['get', [t, col, row]] for t in order]
+    elif rng.random() < 0.35:
         # directed prefix: a failing query (D1), then an edit of an input, then a query of a cell evaluated during the failure;
         # or the two VALUE cells in either order
         if rng.random() < 0.6:
@@ -160,7 +167,10 @@ def run_history(cls, ops, reuse=True):
                     if all(isinstance(x, int) for x in a_):
                         held_get[(a_[1], a_[2])] = qc
                 c = ex.get_cell(qc)
-                o, v = ('done', [c.uid]), [(c.uid, outc(c.value))]
+                # the value is filed under the cell that was ASKED for (a numeric address names it outright), not under whatever the
+                # returned object calls itself: an answer taken from another cell must not pass as that cell's value
+                asked = '_%d_%d_%d' % tuple(a_) if all(isinstance(x, int) and x >= 0 for x in a_) else c.uid
+                o, v = ('done', [c.uid]), [(asked, outc(c.value))]
             elif kind == 'many':
                 cs = ex.get_cells([mkcell(a) for a in op[1]])
                 o, v = ('done', [c.uid for c in cs]), [(c.uid, outc(c.value)) for c in cs]
